@@ -1,7 +1,995 @@
 package main
 
+// Replay of solver counterexamples on the real code.
+//
+// When a proof obligation (postcondition or run-time safety) fails with a model and the function
+// can be called from a generated in-package test (every parameter and the receiver are of a
+// "constructible" type: integers, bools, time values, slices of those, structs of those, pointers
+// to such structs), the entry values are read from the model, a Go test is generated that builds
+// them, calls the REAL function of /repo's current tree and evaluates the violated clause (or
+// waits for the panic), and the test is run with `go test -overlay` (nothing is written to
+// /repo). Only a test that fails in the expected way counts as a reproduced violation; in every
+// other case (types out of reach, quantified clause, model not realisable, test passes) the
+// report stays "no-failing-input-found" and the attempt is recorded in the replay file.
+
+import (
+	"bytes"
+	"context"
+	"encoding/json"
+	"fmt"
+	"go/ast"
+	"go/printer"
+	"go/token"
+	"go/types"
+	"os"
+	"os/exec"
+	"path/filepath"
+	"strconv"
+	"strings"
+	"time"
+)
+
+// ReplayInfo: what is needed to call the function under verification from a test.
+type ReplayInfo struct {
+	Fi     *FuncInfo
+	Recv   *replayParam
+	Params []*replayParam
+}
+
+type replayParam struct {
+	Name string
+	Val  Val
+	Ty   types.Type
+}
+
+var replayBudget = 3 // replay attempts per run (each costs a go test compile)
+
 // tryReplay attempts to turn a failed obligation into a failing input on the real code.
 // Returns true when the failure was reproduced by running /repo's code.
 func (e *Engine) tryReplay(o *Obligation, rec map[string]any) bool {
+	if o.RI == nil {
+		rec["replay_attempt"] = "function cannot be called from a generated test"
+		return false
+	}
+	if replayBudget <= 0 {
+		rec["replay_attempt"] = "replay budget of this run used up"
+		return false
+	}
+	ri := o.RI
+	fi := ri.Fi
+	if fi.Decl == nil || fi.Obj == nil || strings.Contains(fi.Key, "$") {
+		rec["replay_attempt"] = "closure or bodyless function"
+		return false
+	}
+	sig := fi.Obj.Type().(*types.Signature)
+	if sig.TypeParams().Len() > 0 || sig.RecvTypeParams().Len() > 0 {
+		rec["replay_attempt"] = "generic function"
+		return false
+	}
+	// monitor objects carry implicit preconditions (lock invariants over guarded fields) that a
+	// generated input would have to satisfy: not attempted
+	for _, p := range append([]*replayParam{ri.Recv}, ri.Params...) {
+		if p == nil {
+			continue
+		}
+		if ts := e.typeSpecOfType(p.Ty); ts != nil && (len(ts.Guards) > 0 || len(ts.LockInv) > 0) {
+			rec["replay_attempt"] = fmt.Sprintf("parameter %s is a monitor object (lock invariant is an implicit precondition): not attempted", p.Name)
+			return false
+		}
+	}
+	if prev, ok := replayTried[fi.Key]; ok {
+		// one failing input per function and run: the other failed obligations of the function refer to it
+		for k, v := range prev {
+			rec[k] = v
+		}
+		if prev["replay_reproduced"] == true {
+			rec["replay_attempt"] = fmt.Sprintf("same failing input as obligation %v of this function", prev["replay_for"])
+			return true
+		}
+		rec["replay_attempt"] = fmt.Sprintf("already attempted for obligation %v of this function: %v", prev["replay_for"], prev["replay_attempt"])
+		return false
+	}
+	replayBudget--
+	ok := e.modelReplay(o, rec) || e.searchReplay(o, rec)
+	rel, _ := filepath.Rel(e.repo, filepath.Dir(e.fset.Position(fi.Decl.Pos()).Filename))
+	rec["replay_pkg"] = rel
+	keep := map[string]any{"replay_for": o.Name, "replay_reproduced": ok}
+	for _, k := range []string{"replay_test", "replay_cmd", "replay_output", "replay_attempt", "replay_found_by", "replay_pkg"} {
+		if v, has := rec[k]; has {
+			keep[k] = v
+		}
+	}
+	replayTried[fi.Key] = keep
+	return ok
+}
+
+var replayTried = map[string]map[string]any{}
+
+// modelReplay: the solver's model of the failed obligation as the input.
+func (e *Engine) modelReplay(o *Obligation, rec map[string]any) bool {
+	note := func(s string) bool {
+		rec["replay_attempt"] = s
+		return false
+	}
+	if o.Status != "sat" {
+		return note("no model from the solver (status " + o.Status + ")")
+	}
+	if o.Kind != "post" && o.Kind != "safety" {
+		return note("the model of a failed " + o.Kind + " obligation describes a state inside the function, not an input")
+	}
+	ri := o.RI
+	fi := ri.Fi
+	g := &replayGen{e: e, o: o, pkg: fi.Pkg.Types, imports: map[string]bool{"fmt": true, "testing": true}, pkgNames: importNames(fi)}
+	var roots []*rnode
+	all := append([]*replayParam{}, ri.Params...)
+	if ri.Recv != nil {
+		all = append([]*replayParam{ri.Recv}, all...)
+	}
+	for _, p := range all {
+		n := g.node(p.Val.T, p.Ty, 0)
+		if n == nil {
+			return note(fmt.Sprintf("parameter %s of type %s cannot be constructed by a generated test", p.Name, p.Ty))
+		}
+		n.name = p.Name
+		roots = append(roots, n)
+	}
+	// rounds of get-value: scalars and lengths first, then elements
+	if err := g.fetch(roots); err != nil {
+		return note("model values: " + err.Error())
+	}
+	src, err := g.testSource(ri, roots)
+	if err != nil {
+		return note(err.Error())
+	}
+	rec["replay_test"] = src
+	out, reproduced, cmdline := g.run(fi, src)
+	rec["replay_cmd"] = cmdline
+	rec["replay_output"] = out
+	if reproduced {
+		rec["replay_attempt"] = "reproduced on /repo's current tree with the solver's model as input"
+		return true
+	}
+	return note("the solver's model did not make the generated test fail (see replay_output)")
+}
+
+// searchReplay: no usable model (the failed obligation is an invariant, a call precondition, or
+// the solver answered unknown). The contract itself is executable for many functions: a
+// generated test draws inputs from a fixed pseudo-random sequence, keeps those that satisfy the
+// executable preconditions, calls the real function and evaluates the executable postconditions.
+// A failure is a failing input of the real code (found by bounded search, not by the solver).
+func (e *Engine) searchReplay(o *Obligation, rec map[string]any) bool {
+	prev, _ := rec["replay_attempt"].(string)
+	note := func(s string) bool {
+		rec["replay_attempt"] = prev + "; bounded search: " + s
+		return false
+	}
+	ri := o.RI
+	fi := ri.Fi
+	con := fi.Contract
+	if con == nil {
+		return note("no contract")
+	}
+	g := &replayGen{e: e, o: o, pkg: fi.Pkg.Types, imports: map[string]bool{"fmt": true, "testing": true}, pkgNames: importNames(fi)}
+	sig := fi.Obj.Type().(*types.Signature)
+	var decl strings.Builder
+	var names []string
+	all := append([]*replayParam{}, ri.Params...)
+	if ri.Recv != nil {
+		all = append([]*replayParam{ri.Recv}, all...)
+	}
+	for _, p := range all {
+		ge := g.genExpr(p.Ty, 0)
+		if ge == "" {
+			return note(fmt.Sprintf("parameter %s of type %s cannot be generated", p.Name, p.Ty))
+		}
+		fmt.Fprintf(&decl, "\t\t%s := %s\n\t\t_ = %s\n", p.Name, ge, p.Name)
+		names = append(names, p.Name)
+	}
+	scoped := func(cl *Clause) bool {
+		return len(cl.Props) > 0 && e.curProp != "" && !has(cl.Props, e.curProp)
+	}
+	var pre []string
+	for _, r := range con.Requires {
+		if scoped(r) {
+			continue
+		}
+		ex, hs, err := g.goClause(r.Expr, sig)
+		if err != nil || len(hs) > 0 {
+			return note("a precondition is not executable (" + r.Text + ")")
+		}
+		pre = append(pre, "("+ex+")")
+	}
+	var posts, postTexts []string
+	var hoists []string
+	for _, en := range con.Ensures {
+		if scoped(en) {
+			continue
+		}
+		ex, hs, err := g.goClause(en.Expr, sig)
+		if err != nil {
+			continue
+		}
+		// renumber the hoisted old() values of this clause
+		for i := len(hs) - 1; i >= 0; i-- {
+			ex = strings.ReplaceAll(ex, fmt.Sprintf("govcOld%d", i), fmt.Sprintf("govcOld%d", len(hoists)+i))
+		}
+		hoists = append(hoists, hs...)
+		posts = append(posts, ex)
+		postTexts = append(postTexts, en.Text)
+	}
+	if len(posts) == 0 && o.Kind != "safety" {
+		return note("no executable postcondition")
+	}
+	var b strings.Builder
+	b.WriteString("\tgovcX := uint64(88172645463325252)\n\tgovcNext := func() uint64 { govcX ^= govcX << 13; govcX ^= govcX >> 7; govcX ^= govcX << 17; return govcX }\n\t_ = govcNext\n")
+	b.WriteString("\tgovcTried := 0\n\tfor govcTry := 0; govcTry < 200000 && govcTried < 20000; govcTry++ {\n")
+	b.WriteString(decl.String())
+	if len(pre) > 0 {
+		fmt.Fprintf(&b, "\t\tif !(%s) {\n\t\t\tcontinue\n\t\t}\n", strings.Join(pre, " && "))
+	}
+	b.WriteString("\t\tgovcTried++\n")
+	var fm, fa []string
+	for _, n := range names {
+		fm = append(fm, n+"=%s")
+		fa = append(fa, "govcShow("+n+")")
+	}
+	fmt.Fprintf(&b, "\t\tgovcInput := fmt.Sprintf(%q, %s)\n", strings.Join(fm, " "), strings.Join(fa, ", "))
+	for i, h := range hoists {
+		fmt.Fprintf(&b, "\t\tgovcOld%d := govcClone(%s)\n\t\t_ = govcOld%d\n", i, h, i)
+	}
+	var rs []string
+	for i := 0; i < sig.Results().Len(); i++ {
+		fmt.Fprintf(&b, "\t\tvar govcR%d %s\n\t\t_ = govcR%d\n", i, g.typeStr(sig.Results().At(i).Type()), i)
+		rs = append(rs, fmt.Sprintf("govcR%d", i))
+	}
+	call := fi.Obj.Name() + "("
+	if ri.Recv != nil {
+		call = ri.Recv.Name + "." + call
+	}
+	var as []string
+	for i, p := range ri.Params {
+		a := p.Name
+		if sig.Variadic() && i == len(ri.Params)-1 {
+			a += "..."
+		}
+		as = append(as, a)
+	}
+	call += strings.Join(as, ", ") + ")"
+	if len(rs) > 0 {
+		call = strings.Join(rs, ", ") + " = " + call
+	}
+	fmt.Fprintf(&b, "\t\tgovcPanicked := false\n\t\tvar govcPV any\n\t\t_ = govcPV\n\t\tfunc() {\n\t\t\tdefer func() {\n\t\t\t\tif r := recover(); r != nil {\n\t\t\t\t\tgovcPanicked, govcPV = true, r\n\t\t\t\t}\n\t\t\t}()\n\t\t\t%s\n\t\t}()\n", call)
+	if o.Kind == "safety" && con.PanicsWhen == nil {
+		b.WriteString("\t\tif govcPanicked {\n\t\t\tgovcT.Fatalf(\"GOVC-REPLAY-REPRODUCED: the call panics (%v) on input %s\", govcPV, govcInput)\n\t\t}\n")
+	} else {
+		b.WriteString("\t\tif govcPanicked {\n\t\t\tcontinue\n\t\t}\n")
+	}
+	for i, pc := range posts {
+		fmt.Fprintf(&b, "\t\tif !(%s) {\n\t\t\tgovcT.Fatalf(\"GOVC-REPLAY-REPRODUCED: %%s is false after the call on input %%s; results: %%v\", %q, govcInput, []any{%s})\n\t\t}\n", pc, "ensures "+postTexts[i], strings.Join(rs, ", "))
+	}
+	b.WriteString("\t}\n\tfmt.Printf(\"GOVC-REPLAY search: %d inputs satisfied the preconditions, none violated an executable postcondition\\n\", govcTried)\n")
+	var imps []string
+	for p := range g.imports {
+		if p != g.pkg.Path() {
+			imps = append(imps, strconv.Quote(p))
+		}
+	}
+	sortStrings(imps)
+	src := fmt.Sprintf("package %s\n\nimport (\n\t%s\n)\n\n// generated by govc: bounded search for a failing input of %s (obligation %s failed)\nfunc TestGovcReplay(govcT *testing.T) {\n%s}\n\n%s%s",
+		g.pkg.Name(), strings.Join(imps, "\n\t"), fi.Key, o.Name, b.String(), replayHelpers, searchHelpers)
+	rec["replay_test"] = src
+	out, reproduced, cmdline := g.run(fi, src)
+	rec["replay_cmd"] = cmdline
+	rec["replay_output"] = out
+	if reproduced {
+		rec["replay_attempt"] = prev + "; bounded search over the executable contract found a failing input of the real code"
+		rec["replay_found_by"] = "bounded search (fixed pseudo-random sequence, at most 20000 admissible inputs), not a solver model"
+		return true
+	}
+	return note("no failing input among the generated ones (see replay_output)")
+}
+
+const searchHelpers = `
+func govcShow(v any) string {
+	s := fmt.Sprintf("%+v", v)
+	if len(s) > 300 {
+		s = s[:300] + "..."
+	}
+	return s
+}
+
+var govcInts = []int64{0, 1, 2, 3, 4, 5, 6, 7, 8, 9, 10, 15, 16, 17, 31, 32, 33, 63, 64, 100, 255, 256, 257, 1000, 65535, 65536, -1, -2}
+
+func govcInt(r uint64) int64 {
+	if r%4 == 0 {
+		return govcInts[(r>>8)%uint64(len(govcInts))]
+	}
+	return int64((r >> 8) % 12)
+}
+`
+
+// genExpr: Go expression that draws a value of type t from govcNext().
+func (g *replayGen) genExpr(t types.Type, depth int) string {
+	if depth > 3 || t == nil {
+		return ""
+	}
+	u := types.Unalias(t)
+	if isTime(u) {
+		g.imports["time"] = true
+		return "time.Unix(0, govcInt(govcNext()))"
+	}
+	switch x := u.Underlying().(type) {
+	case *types.Basic:
+		switch {
+		case x.Info()&types.IsInteger != 0:
+			return fmt.Sprintf("%s(govcInt(govcNext()))", g.typeStr(t))
+		case x.Kind() == types.Bool:
+			return "(govcNext()%2 == 0)"
+		case x.Kind() == types.String:
+			return fmt.Sprintf("%s(func() []byte { b := make([]byte, govcNext()%%5); for i := range b { b[i] = byte('a' + govcNext()%%3) }; return b }())", g.typeStr(t))
+		}
+		return ""
+	case *types.Slice:
+		el := g.genExpr(x.Elem(), depth+1)
+		if el == "" {
+			return ""
+		}
+		ts := g.typeStr(t)
+		return fmt.Sprintf("func() %s { s := make(%s, govcNext()%%7); for i := range s { s[i] = %s }; return s }()", ts, ts, el)
+	case *types.Struct:
+		if g.foreignOpaque(u, x) {
+			return ""
+		}
+		var fs []string
+		for i := 0; i < x.NumFields(); i++ {
+			f := x.Field(i)
+			if isSyncType(f.Type()) {
+				continue
+			}
+			ge := g.genExpr(f.Type(), depth+1)
+			if ge == "" {
+				// a field that cannot be generated (interface, func, map, channel) keeps its zero
+				// value; a run that touches it panics and is skipped
+				continue
+			}
+			fs = append(fs, f.Name()+": "+ge)
+		}
+		return fmt.Sprintf("%s{%s}", g.typeStr(t), strings.Join(fs, ", "))
+	case *types.Pointer:
+		if st, ok := types.Unalias(x.Elem()).Underlying().(*types.Struct); !ok || g.foreignOpaque(types.Unalias(x.Elem()), st) {
+			return ""
+		}
+		in := g.genExpr(x.Elem(), depth)
+		if in == "" {
+			return ""
+		}
+		return "&" + in
+	}
+	return ""
+}
+
+type rnode struct {
+	name   string
+	kind   string // int bool time dur slice struct ptr
+	term   string
+	ty     types.Type
+	lenT   string
+	arrT   string
+	elemTy types.Type
+	n      int
+	elems  []*rnode
+	fields []*rnode
+	fnames []string
+	val    string
+	isNil  bool
+}
+
+type replayGen struct {
+	pkgNames map[string]string // package name -> import path (imports of the package under test)
+	e       *Engine
+	o       *Obligation
+	pkg     *types.Package
+	imports map[string]bool
+	env     *Env
+}
+
+func (g *replayGen) sortOf(t types.Type) string {
+	env := &Env{c: &Ctx{e: g.e, decls: g.o.Decls}}
+	return env.sortOf(t)
+}
+
+// node describes how to read a value of type t denoted by SMT term `term` from the model.
+func (g *replayGen) node(term string, t types.Type, depth int) *rnode {
+	if depth > 3 || t == nil {
+		return nil
+	}
+	u := types.Unalias(t)
+	if isTime(u) {
+		return &rnode{kind: "time", term: term, ty: t}
+	}
+	switch x := u.Underlying().(type) {
+	case *types.Basic:
+		switch {
+		case x.Info()&types.IsInteger != 0:
+			if n, ok := u.(*types.Named); ok && n.Obj().Pkg() != nil && n.Obj().Pkg().Path() == "time" && n.Obj().Name() == "Duration" {
+				return &rnode{kind: "dur", term: term, ty: t}
+			}
+			return &rnode{kind: "int", term: term, ty: t}
+		case x.Kind() == types.Bool:
+			return &rnode{kind: "bool", term: term, ty: t}
+		}
+		return nil
+	case *types.Slice:
+		s := g.sortOf(t)
+		if !strings.HasPrefix(s, "Sl_") {
+			return nil
+		}
+		return &rnode{kind: "slice", term: term, ty: t, lenT: app("len_"+s, term), arrT: app("arr_"+s, term), elemTy: x.Elem()}
+	case *types.Struct:
+		if g.foreignOpaque(u, x) {
+			return nil
+		}
+		s := g.sortOf(t)
+		n := &rnode{kind: "struct", term: term, ty: t}
+		for i := 0; i < x.NumFields(); i++ {
+			f := x.Field(i)
+			if isSyncType(f.Type()) {
+				continue // zero mutex
+			}
+			fn := g.node(app(fieldSel(s, f.Name()), term), f.Type(), depth+1)
+			if fn == nil {
+				return nil
+			}
+			n.fields = append(n.fields, fn)
+			n.fnames = append(n.fnames, f.Name())
+		}
+		return n
+	case *types.Pointer:
+		st, ok := types.Unalias(x.Elem()).Underlying().(*types.Struct)
+		if !ok || g.foreignOpaque(types.Unalias(x.Elem()), st) {
+			return nil
+		}
+		s := g.sortOf(x.Elem())
+		n := &rnode{kind: "ptr", term: term, ty: t}
+		for i := 0; i < st.NumFields(); i++ {
+			f := st.Field(i)
+			if isSyncType(f.Type()) {
+				continue
+			}
+			key := s + "." + f.Name()
+			fn := g.node(app("select", "|H:"+key+"|", term), f.Type(), depth+1)
+			if fn == nil {
+				return nil
+			}
+			n.fields = append(n.fields, fn)
+			n.fnames = append(n.fnames, f.Name())
+		}
+		return n
+	}
+	return nil
+}
+
+func isSyncType(t types.Type) bool {
+	if n, ok := types.Unalias(t).(*types.Named); ok && n.Obj().Pkg() != nil {
+		return n.Obj().Pkg().Path() == "sync"
+	}
 	return false
+}
+
+// fetch evaluates the needed terms in the solver's model (query re-run with get-value).
+func (g *replayGen) fetch(roots []*rnode) error {
+	q := g.e.query(g.o, false, false)
+	declared := func(t string) bool {
+		// heap symbols that the query never mentions do not exist in it
+		for _, tok := range strings.FieldsFunc(t, func(r rune) bool { return r == '(' || r == ')' || r == ' ' }) {
+			if strings.HasPrefix(tok, "|H:") && !strings.Contains(q, "(declare-fun "+tok+" ") && !strings.Contains(q, "(declare-const "+tok+" ") {
+				return false
+			}
+		}
+		return true
+	}
+	for round := 0; round < 4; round++ {
+		var terms []string
+		var targets []*rnode
+		var walk func(n *rnode)
+		walk = func(n *rnode) {
+			switch n.kind {
+			case "int", "bool", "time", "dur":
+				if n.val == "" {
+					if !declared(n.term) {
+						n.val = "0"
+						if n.kind == "bool" {
+							n.val = "false"
+						}
+						return
+					}
+					terms = append(terms, n.term)
+					targets = append(targets, n)
+				}
+			case "slice":
+				if n.val == "" {
+					if !declared(n.lenT) {
+						n.val, n.n = "0", 0
+						return
+					}
+					terms = append(terms, n.lenT)
+					targets = append(targets, n)
+					return
+				}
+				for _, el := range n.elems {
+					walk(el)
+				}
+			case "struct":
+				for _, f := range n.fields {
+					walk(f)
+				}
+			case "ptr":
+				if n.val == "" {
+					terms = append(terms, n.term)
+					targets = append(targets, n)
+					return
+				}
+				if !n.isNil {
+					for _, f := range n.fields {
+						walk(f)
+					}
+				}
+			}
+		}
+		for _, r := range roots {
+			walk(r)
+		}
+		if len(terms) == 0 {
+			return nil
+		}
+		vals, err := g.getValues(q, terms)
+		if err != nil {
+			return err
+		}
+		for i, n := range targets {
+			v := vals[i]
+			switch n.kind {
+			case "slice":
+				k, err := strconv.Atoi(v)
+				if err != nil || k < 0 || k > 48 {
+					return fmt.Errorf("slice length %q out of the replayable range", v)
+				}
+				n.val, n.n = v, k
+				for j := 0; j < k; j++ {
+					el := g.node(app("select", n.arrT, strconv.Itoa(j)), n.elemTy, 1)
+					if el == nil {
+						return fmt.Errorf("slice element type %s not constructible", n.elemTy)
+					}
+					n.elems = append(n.elems, el)
+				}
+			case "ptr":
+				n.val = v
+				n.isNil = v == "0"
+			default:
+				n.val = v
+			}
+		}
+	}
+	return nil
+}
+
+func (g *replayGen) getValues(q string, terms []string) ([]string, error) {
+	dir, err := os.MkdirTemp("", "govc-replay-")
+	if err != nil {
+		return nil, err
+	}
+	defer os.RemoveAll(dir)
+	f := filepath.Join(dir, "m.smt2")
+	var b strings.Builder
+	b.WriteString("(set-option :produce-models true)\n")
+	b.WriteString(q)
+	for _, t := range terms {
+		fmt.Fprintf(&b, "(get-value (%s))\n", t)
+	}
+	os.WriteFile(f, []byte(b.String()), 0o644)
+	ctx, cancel := context.WithTimeout(context.Background(), 25*time.Second)
+	defer cancel()
+	solver := "z3-new"
+	if base, _, _ := strings.Cut(g.o.Solver, "/"); base == "z3" {
+		solver = "z3" // the solver that produced the model
+	}
+	out, _ := exec.CommandContext(ctx, solver, "-T:20", f).Output()
+	lines := strings.SplitN(string(out), "\n", 2)
+	if strings.TrimSpace(lines[0]) != "sat" || len(lines) < 2 {
+		return nil, fmt.Errorf("solver answered %q on the re-run", strings.TrimSpace(lines[0]))
+	}
+	// each get-value prints ((term value)); values are the last s-expression before the final "))"
+	var vals []string
+	rest := lines[1]
+	for range terms {
+		i := strings.Index(rest, "((")
+		if i < 0 {
+			return nil, fmt.Errorf("unexpected get-value output")
+		}
+		depth, j := 0, i
+		for ; j < len(rest); j++ {
+			if rest[j] == '(' {
+				depth++
+			} else if rest[j] == ')' {
+				depth--
+				if depth == 0 {
+					break
+				}
+			}
+		}
+		item := rest[i+2 : j-1] // term value
+		rest = rest[j+1:]
+		vals = append(vals, lastSexp(strings.TrimSpace(item)))
+	}
+	return vals, nil
+}
+
+// lastSexp returns the last s-expression of "term value", normalised: (- 5) -> -5.
+func lastSexp(s string) string {
+	s = strings.TrimSpace(s)
+	if strings.HasSuffix(s, ")") {
+		depth := 0
+		for i := len(s) - 1; i >= 0; i-- {
+			if s[i] == ')' {
+				depth++
+			} else if s[i] == '(' {
+				depth--
+				if depth == 0 {
+					v := strings.Join(strings.Fields(s[i:]), " ")
+					if strings.HasPrefix(v, "(- ") {
+						return "-" + strings.TrimSuffix(strings.TrimPrefix(v, "(- "), ")")
+					}
+					return v
+				}
+			}
+		}
+	}
+	fs := strings.Fields(s)
+	return fs[len(fs)-1]
+}
+
+func (g *replayGen) typeStr(t types.Type) string {
+	return types.TypeString(t, func(p *types.Package) string {
+		if p == g.pkg {
+			return ""
+		}
+		g.imports[p.Path()] = true
+		return p.Name()
+	})
+}
+
+// lit renders the Go expression that builds the value.
+func (g *replayGen) lit(n *rnode) (string, error) {
+	switch n.kind {
+	case "int":
+		if _, err := strconv.ParseInt(n.val, 10, 64); err != nil {
+			if _, err2 := strconv.ParseUint(n.val, 10, 64); err2 != nil {
+				return "", fmt.Errorf("model value %q is not an integer literal", n.val)
+			}
+		}
+		return fmt.Sprintf("%s(%s)", g.typeStr(n.ty), n.val), nil
+	case "dur":
+		g.imports["time"] = true
+		return fmt.Sprintf("time.Duration(%s)", n.val), nil
+	case "time":
+		g.imports["time"] = true
+		v, err := strconv.ParseInt(n.val, 10, 64)
+		if err != nil {
+			return "time.Time{}", nil // below every Unix-nanosecond value: the zero time
+		}
+		return fmt.Sprintf("time.Unix(0, %d)", v), nil
+	case "bool":
+		return n.val, nil
+	case "slice":
+		var es []string
+		for _, e := range n.elems {
+			s, err := g.lit(e)
+			if err != nil {
+				return "", err
+			}
+			es = append(es, s)
+		}
+		return fmt.Sprintf("%s{%s}", g.typeStr(n.ty), strings.Join(es, ", ")), nil
+	case "struct", "ptr":
+		if n.kind == "ptr" && n.isNil {
+			return "nil", nil
+		}
+		var fs []string
+		for i, f := range n.fields {
+			s, err := g.lit(f)
+			if err != nil {
+				return "", err
+			}
+			fs = append(fs, n.fnames[i]+": "+s)
+		}
+		t := n.ty
+		amp := ""
+		if n.kind == "ptr" {
+			t = types.Unalias(n.ty).Underlying().(*types.Pointer).Elem()
+			amp = "&"
+		}
+		return fmt.Sprintf("%s%s{%s}", amp, g.typeStr(t), strings.Join(fs, ", ")), nil
+	}
+	return "", fmt.Errorf("unsupported value kind %s", n.kind)
+}
+
+// testSource generates the in-package test.
+func (g *replayGen) testSource(ri *ReplayInfo, roots []*rnode) (string, error) {
+	fi := ri.Fi
+	sig := fi.Obj.Type().(*types.Signature)
+	var body strings.Builder
+	for _, r := range roots {
+		l, err := g.lit(r)
+		if err != nil {
+			return "", err
+		}
+		fmt.Fprintf(&body, "\t%s := %s\n\t_ = %s\n", r.name, l, r.name)
+	}
+	// the violated clause as Go (postconditions only)
+	check := ""
+	var hoists []string
+	if g.o.Kind == "post" {
+		if g.o.ClauseAST == nil {
+			return "", fmt.Errorf("clause not available for replay")
+		}
+		ex, hs, err := g.goClause(g.o.ClauseAST, sig)
+		if err != nil {
+			return "", err
+		}
+		check, hoists = ex, hs
+	}
+	for i, h := range hoists {
+		fmt.Fprintf(&body, "\tgovcOld%d := govcClone(%s)\n\t_ = govcOld%d\n", i, h, i)
+	}
+	var rs []string
+	for i := 0; i < sig.Results().Len(); i++ {
+		fmt.Fprintf(&body, "\tvar govcR%d %s\n\t_ = govcR%d\n", i, g.typeStr(sig.Results().At(i).Type()), i)
+		rs = append(rs, fmt.Sprintf("govcR%d", i))
+	}
+	call := fi.Obj.Name() + "("
+	if ri.Recv != nil {
+		call = ri.Recv.Name + "." + call
+	}
+	var as []string
+	for i, p := range ri.Params {
+		a := p.Name
+		if sig.Variadic() && i == len(ri.Params)-1 {
+			a += "..."
+		}
+		as = append(as, a)
+	}
+	call += strings.Join(as, ", ") + ")"
+	if len(rs) > 0 {
+		call = strings.Join(rs, ", ") + " = " + call
+	}
+	fmt.Fprintf(&body, "\tgovcPanicked := false\n\tfunc() {\n\t\tdefer func() {\n\t\t\tif r := recover(); r != nil {\n\t\t\t\tgovcPanicked = true\n\t\t\t\tfmt.Printf(\"GOVC-REPLAY panic: %%v\\n\", r)\n\t\t\t}\n\t\t}()\n\t\t%s\n\t}()\n", call)
+	if g.o.Kind == "safety" {
+		body.WriteString("\tif govcPanicked {\n\t\tgovcT.Fatalf(\"GOVC-REPLAY-REPRODUCED: the call panics on this input\")\n\t}\n")
+	} else {
+		body.WriteString("\tif govcPanicked {\n\t\tgovcT.Skip(\"the call govcPanicked: not the postcondition\")\n\t}\n")
+		fmt.Fprintf(&body, "\tif !(%s) {\n\t\tgovcT.Fatalf(\"GOVC-REPLAY-REPRODUCED: the clause is false after the call; results: %%v\", []any{%s})\n\t}\n", check, strings.Join(rs, ", "))
+	}
+	var imps []string
+	for p := range g.imports {
+		if p != g.pkg.Path() {
+			imps = append(imps, strconv.Quote(p))
+		}
+	}
+	sortStrings(imps)
+	src := fmt.Sprintf("package %s\n\nimport (\n\t%s\n)\n\n// generated by govc from the solver model of obligation %s\nfunc TestGovcReplay(govcT *testing.T) {\n%s}\n\n%s",
+		g.pkg.Name(), strings.Join(imps, "\n\t"), g.o.Name, body.String(), replayHelpers)
+	return src, nil
+}
+
+func sortStrings(s []string) {
+	for i := range s {
+		for j := i + 1; j < len(s); j++ {
+			if s[j] < s[i] {
+				s[i], s[j] = s[j], s[i]
+			}
+		}
+	}
+}
+
+const replayHelpers = `func govcClone[T any](x T) T {
+	switch v := any(x).(type) {
+	case []byte:
+		return any(append([]byte(nil), v...)).(T)
+	case []int:
+		return any(append([]int(nil), v...)).(T)
+	case []uint32:
+		return any(append([]uint32(nil), v...)).(T)
+	case []uint64:
+		return any(append([]uint64(nil), v...)).(T)
+	case []int64:
+		return any(append([]int64(nil), v...)).(T)
+	}
+	return x
+}
+`
+
+// goClause turns the clause AST into a Go expression: result/resultN -> rN, old(E) -> oldK
+// (E evaluated before the call). Clauses with specification-only constructs are not replayed.
+func (g *replayGen) goClause(e ast.Expr, sig *types.Signature) (string, []string, error) {
+	var hoists []string
+	var bad error
+	var rw func(n ast.Expr) ast.Expr
+	printE := func(n ast.Expr) string {
+		var b bytes.Buffer
+		printer.Fprint(&b, token.NewFileSet(), n)
+		return b.String()
+	}
+	specOnly := map[string]bool{"exists": true, "has": true, "same": true, "seqlen": true, "seqat": true, "ite": true, "called": true, "held": true,
+		"fresh": true, "remaining": true, "jsonof": true, "rankof": true, "trig": true, "indexof": true, "hasprefix": true}
+	rw = func(n ast.Expr) ast.Expr {
+		switch x := n.(type) {
+		case *ast.Ident:
+			if x.Name == "result" {
+				return ast.NewIdent("govcR0")
+			}
+			if strings.HasPrefix(x.Name, "result") {
+				if k, err := strconv.Atoi(strings.TrimPrefix(x.Name, "result")); err == nil {
+					return ast.NewIdent(fmt.Sprintf("govcR%d", k))
+				}
+			}
+			return x
+		case *ast.CallExpr:
+			if id, ok := x.Fun.(*ast.Ident); ok {
+				if id.Name == "old" && len(x.Args) == 1 {
+					hoists = append(hoists, printE(x.Args[0]))
+					return ast.NewIdent(fmt.Sprintf("govcOld%d", len(hoists)-1))
+				}
+				if specOnly[id.Name] {
+					bad = fmt.Errorf("the clause uses the specification construct %s(...): not executable", id.Name)
+				}
+				if id.Name == "forall" && len(x.Args) != 3 {
+					bad = fmt.Errorf("the clause quantifies over an unbounded domain: not executable")
+				}
+			}
+			c := *x
+			c.Args = nil
+			for _, a := range x.Args {
+				c.Args = append(c.Args, rw(a))
+			}
+			c.Fun = rw(x.Fun)
+			return &c
+		case *ast.BinaryExpr:
+			c := *x
+			c.X, c.Y = rw(x.X), rw(x.Y)
+			return &c
+		case *ast.UnaryExpr:
+			c := *x
+			c.X = rw(x.X)
+			return &c
+		case *ast.ParenExpr:
+			c := *x
+			c.X = rw(x.X)
+			return &c
+		case *ast.SelectorExpr:
+			if id, ok := x.X.(*ast.Ident); ok && g.pkgNames != nil {
+				if path, isPkg := g.pkgNames[id.Name]; isPkg {
+					g.imports[path] = true
+					return x
+				}
+			}
+			c := *x
+			c.X = rw(x.X)
+			return &c
+		case *ast.IndexExpr:
+			c := *x
+			c.X, c.Index = rw(x.X), rw(x.Index)
+			return &c
+		case *ast.SliceExpr:
+			c := *x
+			c.X = rw(x.X)
+			if x.Low != nil {
+				c.Low = rw(x.Low)
+			}
+			if x.High != nil {
+				c.High = rw(x.High)
+			}
+			return &c
+		case *ast.FuncLit:
+			// quantifier bodies: rewrite the single return expression
+			c := *x
+			b := *x.Body
+			c.Body = &b
+			b.List = nil
+			for _, s := range x.Body.List {
+				if r, ok := s.(*ast.ReturnStmt); ok && len(r.Results) == 1 {
+					rr := *r
+					rr.Results = []ast.Expr{rw(r.Results[0])}
+					b.List = append(b.List, &rr)
+				} else {
+					b.List = append(b.List, s)
+				}
+			}
+			return &c
+		case *ast.CompositeLit, *ast.BasicLit, *ast.StarExpr, *ast.TypeAssertExpr:
+			return x
+		}
+		return n
+	}
+	out := rw(e)
+	if bad != nil {
+		return "", nil, bad
+	}
+	return printE(out), hoists, nil
+}
+
+// run executes the generated test against /repo through an overlay.
+func (g *replayGen) run(fi *FuncInfo, src string) (string, bool, string) {
+	dir, err := os.MkdirTemp("", "govc-replay-")
+	if err != nil {
+		return err.Error(), false, ""
+	}
+	defer os.RemoveAll(dir)
+	pkgDir := filepath.Dir(g.e.fset.Position(fi.Decl.Pos()).Filename)
+	tf := filepath.Join(dir, "zz_govc_replay_test.go")
+	os.WriteFile(tf, []byte(src), 0o644)
+	ov := map[string]string{}
+	if g.e.overlayPath != "" {
+		if b, err := os.ReadFile(g.e.overlayPath); err == nil {
+			var o struct{ Replace map[string]string }
+			if json.Unmarshal(b, &o) == nil {
+				for k, v := range o.Replace {
+					ov[k] = v
+				}
+			}
+		}
+	}
+	ov[filepath.Join(pkgDir, "zz_govc_replay_test.go")] = tf
+	ob, _ := json.Marshal(map[string]any{"Replace": ov})
+	ovf := filepath.Join(dir, "ov.json")
+	os.WriteFile(ovf, ob, 0o644)
+	rel, _ := filepath.Rel(g.e.repo, pkgDir)
+	args := []string{"test", "-tags", "verif", "-overlay", ovf, "-vet=off", "-count=1", "-timeout", "60s", "-run", "^TestGovcReplay$", "./" + rel + "/"}
+	ctx, cancel := context.WithTimeout(context.Background(), 240*time.Second)
+	defer cancel()
+	cmd := exec.CommandContext(ctx, "go", args...)
+	cmd.Dir = g.e.repo
+	cmd.Env = append(os.Environ(), "GOFLAGS=-mod=mod", "GOPROXY=off")
+	out, err := cmd.CombinedOutput()
+	s := string(out)
+	if len(s) > 4000 {
+		s = s[:4000] + "..."
+	}
+	return s, err != nil && strings.Contains(s, "GOVC-REPLAY-REPRODUCED"), "cd " + g.e.repo + " && go " + strings.Join(args, " ") + "   (overlay: generated protobuf code + the test in replay_test as " + filepath.Join(rel, "zz_govc_replay_test.go") + ")"
+}
+
+// typeSpecOfType: the //@ type block of a (pointer to a) named struct type, if any.
+func (e *Engine) typeSpecOfType(t types.Type) *TypeSpec {
+	t = types.Unalias(t)
+	if p, ok := t.Underlying().(*types.Pointer); ok {
+		t = types.Unalias(p.Elem())
+	}
+	n, ok := t.(*types.Named)
+	if !ok || n.Obj().Pkg() == nil {
+		return nil
+	}
+	return e.typeSpecs[n.Obj().Pkg().Name()+"."+n.Obj().Name()]
+}
+
+// foreignOpaque: a struct type of another package with unexported fields cannot be written as a literal.
+func (g *replayGen) foreignOpaque(t types.Type, st *types.Struct) bool {
+	n, ok := t.(*types.Named)
+	if !ok || n.Obj().Pkg() == nil || n.Obj().Pkg() == g.pkg {
+		return false
+	}
+	for i := 0; i < st.NumFields(); i++ {
+		if !st.Field(i).Exported() {
+			return true
+		}
+	}
+	return false
+}
+
+func importNames(fi *FuncInfo) map[string]string {
+	m := map[string]string{}
+	for path, ip := range fi.Pkg.Imports {
+		if ip != nil && ip.Name != "" {
+			m[ip.Name] = path
+		}
+	}
+	return m
 }
